@@ -5,12 +5,22 @@ graph := n  ne u₁ v₁ …  nl (name bits)…        bits = one token of n cha
 ops   := with G k names… | without G k names… | withoutrev G k names… (as coded, set order = reversed)
        | get G name | add G name k idx… | addc G name k idx… (as coded) | remove G name
        | seq G nops op…   op := W k names… | X k names… | A name k idx… | R name
+       | construct G       (the constructor on a recipe whose masks may be too short / too long (`-` = empty) / not covering)
+       | fromidx n ne u v … nl (name k idx…)…     (`init_from_indices_mapping`)
+       | allLabel n ne u v …                      (`init_with_all_label`)
+       | withstr G name | withoutstr G name     (the `str` argument form, `LabelsArg.str`)
        | lab fname n       (the regenerated table `Generated.all` applied to the ids 0..n-1)
+       | call fname kind n rm    (`LabFunc.call` of `Generated.funcs` on an input of that kind with the ids 0..n-1;
+                                  kind = ndarray|pointcloud|lgraph|group, rm = 0|1)
+       | relabel ng (key dim n)… src|- nf fname…   (`relabelMany` on a manager of point clouds; group i holds the ids
+                                  1000·i + 0..n-1; the same source key (or `-` = None) for every function)
 reply := ok n id… ne u v … nl (name bits)… | err key|value|index|empty|labelling [at i]
          (get: ok n id… ne u v…)
+         call:    <cls> <nmap> (name k idx…)… | <graph reply>     or   err …
+         relabel: okm ng (key cls dim <graph reply without the leading ok>)…   or   err …
 -/
 import MenpoModel.Core.Codec
-import MenpoModel.Core.C15
+import MenpoModel.Core.C15Entry
 import MenpoModel.Generated.C15Labellers
 
 namespace MenpoModel.Drive.C15
@@ -18,7 +28,7 @@ open MenpoModel.Codec MenpoModel.C15
 
 def pBits : P (List Bool) := do
   let t ← tok
-  pure (t.toList.map (· == '1'))
+  pure (if t == "-" then [] else t.toList.map (· == '1'))
 
 def pEdge : P (Nat × Nat) := do let u ← pNat; let v ← pNat; pure (u, v)
 def pLabel : P (String × List Bool) := do let l ← tok; let b ← pBits; pure (l, b)
@@ -62,8 +72,86 @@ def runAt (st : LGraph Nat → Op → Except Err (LGraph Nat)) : Nat → LGraph 
     | .error e => s!"{fmtErr e} at {i}"
     | .ok g' => runAt st (i + 1) g' os
 
+def pKind : P InKind := do
+  let t ← tok
+  match t with
+  | "ndarray" => pure .ndarray
+  | "pointcloud" => pure .pointcloud
+  | "lgraph" => pure .lgraph
+  | "group" => pure .group
+  | _ => failure
+
+def fmtCls : OutCls → String
+  | .lgraph => "lgraph" | .trimesh => "trimesh" | .pugraph => "pugraph" | .pointcloud => "pointcloud"
+  | .other => "other"
+
+def fmtMapping : Option (List (String × List Nat)) → String
+  | none => "0"
+  | some m => s!"{m.length}" ++ String.join (m.map fun p => s!" {fmtName p.1} {fmtPts p.2}")
+
+def lookupFunc (name : String) : Option LabFunc := Generated.funcs.find? fun f => f.name == name
+
+def pGroup (i : Nat) : P (String × Shape Nat) := do
+  let k ← tok
+  let d ← pNat
+  let n ← pNat
+  pure (k, { dim := d, cls := .pointcloud,
+             g := { pts := (List.range n).map (· + 1000 * i), edges := [], labels := [] } })
+
+def pGroups : Nat → Nat → P (List (String × Shape Nat))
+  | 0, _ => pure []
+  | k+1, i => do let g ← pGroup i; let rest ← pGroups k (i + 1); pure (g :: rest)
+
+def fmtManager (m : Manager Nat) : String :=
+  s!"okm {m.groups.length}" ++ String.join (m.groups.map fun p =>
+    s!" {fmtName p.1} {fmtCls p.2.cls} {p.2.dim} {(fmtGraph p.2.g).drop 3}")
+
 def step (toks : List String) : String :=
   match toks with
+  | "construct" :: rest => match runP pGraph rest with
+    | some g => fmtRes (construct g.pts g.edges g.labels)
+    | none => "bad-op"
+  | "fromidx" :: rest => match runP (do
+        let n ← pNat
+        let es ← pList pEdge
+        let ms ← pList (do let l ← tok; let ix ← pList pInt; pure (l, ix))
+        pure (n, es, ms)) rest with
+    | some (n, es, ms) => fmtRes (initFromIndices (List.range n) es ms)
+    | none => "bad-op"
+  | "allLabel" :: rest => match runP (do let n ← pNat; let es ← pList pEdge; pure (n, es)) rest with
+    | some (n, es) => fmtRes (initWithAllLabel (List.range n) es)
+    | none => "bad-op"
+  | "withstr" :: rest => match runP (do let g ← pGraph; let l ← tok; pure (g, l)) rest with
+    | some (g, l) => fmtRes (withLabelsA g (.str l))
+    | none => "bad-op"
+  | "withoutstr" :: rest => match runP (do let g ← pGraph; let l ← tok; pure (g, l)) rest with
+    | some (g, l) => fmtRes (withoutLabelsA g (.str l))
+    | none => "bad-op"
+  | "call" :: fname :: rest => match runP (do let k ← pKind; let n ← pNat; let rm ← pNat; pure (k, n, rm)) rest,
+                                     lookupFunc fname with
+    | some (k, n, rm), some f =>
+      match f.call { kind := k, pts := List.range n, edges := if n > 1 then [(0, 1)] else [],
+                     labels := [("all", List.replicate n true)] } (rm != 0) with
+      | .ok o => s!"{fmtCls o.cls} {fmtMapping o.mapping} | {fmtGraph o.g}"
+      | .error e => fmtErr e
+    | _, none => "err unknown-labeller"
+    | none, _ => "bad-op"
+  | "relabel" :: rest =>
+    match runP (do
+        let ng ← pNat
+        let gs ← pGroups ng 0
+        let src ← tok
+        let fs ← pList tok
+        pure (gs, src, fs)) rest with
+    | some (gs, src, fs) =>
+      match fs.mapM lookupFunc with
+      | none => "err unknown-labeller"
+      | some funcs =>
+        let grp := if src == "-" then none else some src
+        match relabelMany { groups := gs } (funcs.map fun f => (grp, f)) with
+        | .ok m => fmtManager m
+        | .error e => fmtErr e
+    | none => "bad-op"
   | "with" :: rest => match runP (do let g ← pGraph; let r ← pList tok; pure (g, r)) rest with
     | some (g, r) => fmtRes (withLabels g r)
     | none => "bad-op"
